@@ -63,6 +63,7 @@ pub fn check(c: &Case) -> R {
         check_matcher("ShiftAnd (text as an iterator without size hint)", p, &c.texts, &|t| capped(sa.find_all(streamed(t)), t))?;
         check_matcher("ShiftAnd (text as a chain of two halves)", p, &c.texts, &|t| capped(sa.find_all(t[..t.len() / 2].iter().chain(t[t.len() / 2..].iter())), t))?;
         check_matcher("ShiftAnd (text as owned u8 items)", p, &c.texts, &|t| capped(sa.find_all(t.iter().copied()), t))?;
+        check_matcher("ShiftAnd (text as an iterator whose size_hint lower bound is below its length)", p, &c.texts, &|t| capped(sa.find_all(t[..t.len() / 3].iter().chain(t[t.len() / 3..].iter().filter(|_| true))), t))?;
         check_matcher("ShiftAnd (text as &Vec<u8>)", p, &c.texts, &|t| {
             let v = t.to_vec();
             let r = capped(sa.find_all(&v), t);
@@ -79,6 +80,7 @@ pub fn check(c: &Case) -> R {
     check_matcher("KMP", p, &c.texts, &|t| capped(kmp.find_all(t), t))?;
     check_matcher("KMP (text as an iterator without size hint)", p, &c.texts, &|t| capped(kmp.find_all(streamed(t)), t))?;
     check_matcher("KMP (text as owned u8 items)", p, &c.texts, &|t| capped(kmp.find_all(t.iter().copied()), t))?;
+    check_matcher("KMP (text as an iterator whose size_hint lower bound is below its length)", p, &c.texts, &|t| capped(kmp.find_all(t[..t.len() / 3].iter().chain(t[t.len() / 3..].iter().filter(|_| true))), t))?;
     check_matcher("KMP (text as a boxed iterator)", p, &c.texts, &|t| {
         let it: Box<dyn Iterator<Item = &u8>> = Box::new(t.iter());
         capped(kmp.find_all(it), t)
